@@ -45,22 +45,23 @@ const minFee = 10000
 
 // Run is the driver entry point.
 func Run(o *drv.Out) {
-	corpusOversize(o)
+	execdrv.Property = "C07"
+	execdrv.Guard(o, func() { corpusOversize(o) })
 	nCases, nHeights := 5, 4
 	if o.Tier == "thorough" || o.Search {
 		nCases, nHeights = 14, 7
 	}
 	for ci := 0; ci < nCases; ci++ {
-		failedTxCase(o, ci, nHeights)
+		execdrv.Guard(o, func() { failedTxCase(o, ci, nHeights) })
 	}
-	slashThenFailCase(o)
-	paramCacheCases(o)
+	execdrv.Guard(o, func() { slashThenFailCase(o) })
+	execdrv.Guard(o, func() { paramCacheCases(o) })
 	nRej := 3
 	if o.Tier == "thorough" || o.Search {
 		nRej = 8
 	}
 	for ci := 0; ci < nRej; ci++ {
-		rejectCase(o, ci)
+		execdrv.Guard(o, func() { rejectCase(o, ci) })
 	}
 }
 
@@ -294,8 +295,8 @@ func failedTxCase(o *drv.Out, ci, nHeights int) {
 			o.Sample(fmt.Sprintf("%s h=%d executed=%d included=%v failed=%v oversize=%v", o.CurCase(), h, len(order), inc, fail, over))
 		}
 		// the remainder stays in A's mempool; drop it so that the next height starts from a known list
-		if A.MempoolCount() > 0 {
-			c.Restart(A)
+		if A.MempoolCount() > 0 && !c.Restart(A) {
+			return
 		}
 	}
 }
@@ -681,8 +682,8 @@ func corpusOversize(o *drv.Out) {
 		o.Op(fmt.Sprintf("def %d %s %s %s %s", h, pre2, p2.ID, A2.StateDigest(), p2.Obs), "def")
 		c.Release()
 		o.Count(fmt.Sprintf("corpus-oversize:%d-sends:included=%d:remainder=%d", n, p.NTx, remainder))
-		if A.MempoolCount() > 0 {
-			c.Restart(A)
+		if A.MempoolCount() > 0 && !c.Restart(A) {
+			return
 		}
 	}
 }
